@@ -134,6 +134,13 @@ def main():
                 aq = QT[c["aq"]]
                 qa = quantize_activation(a, aq, absmax_scale(a, aq)) if c["a_q"] else a
                 qb = quantize_activation(bb, aq, absmax_scale(bb, aq)) if c["b_q"] else bb
+                # operands quantized per-axis (along their first or last dimension), rows / columns of very different magnitude
+                if c.get("a_axis") is not None and c["a_q"] and c["op"] == "mm":
+                    a = a * torch.logspace(-2, 1, sh_a[0 if c["a_axis"] == 0 else 1]).reshape((-1, 1) if c["a_axis"] == 0 else (1, -1)).to(dtype)
+                    qa = quantize_weight(a, aq, c["a_axis"])
+                if c.get("b_axis") is not None and c["b_q"] and c["op"] == "mm":
+                    bb = bb * torch.logspace(-2, 1, sh_b[0 if c["b_axis"] == 0 else 1]).reshape((-1, 1) if c["b_axis"] == 0 else (1, -1)).to(dtype)
+                    qb = quantize_weight(bb, aq, c["b_axis"])
                 if c.get("layout") == "expanded":
                     qa = qa[..., :1, :].expand(*sh_a)  # broadcast rows (stride 0)
                 ad = qa.dequantize().double() if isinstance(qa, QTensor) else qa.double()
